@@ -117,7 +117,7 @@ func genDgesvd(g *vlib.G) {
 					if g.Stopped() {
 						return
 					}
-					g.Case(fmt.Sprintf("Dgesvd m=%d n=%d fam=%s prof=%s ld=+%d+%d+%d lwork=%s", c.m, c.n, f.name, c.p.name, ld[0], ld[1], ld[2], lw), func(t *vlib.T) {
+					kase(g, fmt.Sprintf("Dgesvd m=%d n=%d fam=%s prof=%s ld=+%d+%d+%d lwork=%s", c.m, c.n, f.name, c.p.name, ld[0], ld[1], ld[2], lw), func(t *vlib.T) {
 						runDgesvd(t, c.m, c.n, c.p, f, ld, lw)
 						attributeBlocked(t, c.p, func(t *vlib.T, p prof) { runDgesvd(t, c.m, c.n, p, f, ld, lw) })
 					})
@@ -378,7 +378,7 @@ func genDgebrd(g *vlib.G) {
 					if g.Stopped() {
 						return
 					}
-					g.Case(fmt.Sprintf("Dgebrd m=%d n=%d fam=%s prof=%s lda=n+%d lwork=%s", c.m, c.n, f.name, c.p.name, ldx, lw), func(t *vlib.T) {
+					kase(g, fmt.Sprintf("Dgebrd m=%d n=%d fam=%s prof=%s lda=n+%d lwork=%s", c.m, c.n, f.name, c.p.name, ldx, lw), func(t *vlib.T) {
 						runDgebrd(t, c.m, c.n, c.p, f, ldx, lw)
 						attributeBlocked(t, c.p, func(t *vlib.T, p prof) { runDgebrd(t, c.m, c.n, p, f, ldx, lw) })
 					})
@@ -751,7 +751,7 @@ func genDbdsqrMinWork(g *vlib.G) {
 	for n := 0; n <= vlib.Pick(g, 6, 10); n++ {
 		for _, uplo := range []blas.Uplo{blas.Upper, blas.Lower} {
 			n, uplo := n, uplo
-			g.Case(fmt.Sprintf("Dbdsqr-novectors n=%d uplo=%c work=4(n-1)", n, uplo), func(t *vlib.T) {
+			kase(g, fmt.Sprintf("Dbdsqr-novectors n=%d uplo=%c work=4(n-1)", n, uplo), func(t *vlib.T) {
 				d, e := make([]float64, n), make([]float64, max(0, n-1))
 				for i := range d {
 					d[i] = float64(1 + i)
